@@ -170,7 +170,45 @@ theorem metaOf_head (ch : List Diff) (hm : MigOK ch) (c : CHash) :
 /-- the migrated hash of a diff is the blake2s hash stored at declaration (what `Migrate` switches
 to); stated on the record the chain leaves -/
 def MigVal (ch : List Diff) (d : Diff) : Prop :=
-  ∀ p ∈ d.migrated, ∀ mt, metaOf ch p.1 = some mt → mt.v2 = p.2
+  ∀ p ∈ d.migrated, ∀ mt, metaOf ch p.1 = some mt → mt.v1.isSome = true → mt.v2 = p.2
+
+/-- INPUT ASSUMPTION of the CASM theorem, in terms of the blocks only: a migration carries, for its
+class, the blake2s hash that came with the class's declaration (`SierraDecl.casmV2`: what juno
+computes from the compiled class when the class is declared under protocol < 0.14.1). juno does not
+look at the hash in `MigratedClasses`; see `casm_migration_foreign_hash_counterexample`. -/
+def MigOwnHash (ch : List Diff) (d : Diff) : Prop :=
+  ∀ p ∈ d.migrated, ∀ dd ∈ ch, ∀ x ∈ dd.declared1, x.hash = p.1 → x.casmV2 = p.2
+
+/-- the v2 hash of a record with a v1 hash is the one supplied with some declaration of the class -/
+theorem metaOf_v2_from_decl (ch : List Diff) (c : CHash) (mt : CasmMeta) (h : metaOf ch c = some mt)
+    (h1 : mt.v1.isSome = true) : ∃ dd ∈ ch, ∃ x ∈ dd.declared1, x.hash = c ∧ x.casmV2 = mt.v2 := by
+  induction ch generalizing mt with
+  | nil => simp [metaOf] at h
+  | cons d rest ih =>
+    simp only [metaOf] at h
+    by_cases hf : d.declared1.find? (fun x => x.hash == c) = none
+    · simp only [hf] at h
+      by_cases hc : (d.v2 && (alook d.migrated c).isSome) = true
+      · simp only [hc, if_true, Option.map_eq_some_iff] at h
+        obtain ⟨m0, hm0, rfl⟩ := h
+        obtain ⟨dd, hdd, x, hx, e1, e2⟩ := ih m0 hm0 h1
+        exact ⟨dd, List.mem_cons_of_mem _ hdd, x, hx, e1, e2⟩
+      · simp only [hc, Bool.false_eq_true, if_false] at h
+        obtain ⟨dd, hdd, x, hx, e1, e2⟩ := ih mt h h1
+        exact ⟨dd, List.mem_cons_of_mem _ hdd, x, hx, e1, e2⟩
+    · obtain ⟨x, hx⟩ := Option.ne_none_iff_exists'.mp hf
+      have hxm := List.mem_of_find?_eq_some hx
+      have hxc : x.hash = c := by simpa using List.find?_some hx
+      simp only [hx, Option.some.injEq] at h
+      by_cases h2 : d.v2 = true
+      · simp only [h2, if_true] at h; subst h; simp at h1
+      · simp only [h2, Bool.false_eq_true, if_false] at h; subst h
+        exact ⟨d, List.mem_cons_self, x, hxm, hxc, rfl⟩
+
+theorem migVal_of_ownHash (ch : List Diff) (d : Diff) (h : MigOwnHash ch d) : MigVal ch d := by
+  intro p hp mt hmt h1
+  obtain ⟨dd, hdd, x, hx, e1, e2⟩ := metaOf_v2_from_decl ch p.1 mt hmt h1
+  rw [← e2]; exact h p hp dd hdd x hx e1
 
 structure MInv (ch : List Diff) (m : MetaMap) : Prop where
   ok : MigOK ch
@@ -322,7 +360,7 @@ theorem minv_store (ch : List Diff) (m m' : MetaMap) (d : Diff) (hinv : MInv ch 
       obtain ⟨mt, hmt, h0, h1, hlt⟩ := hfacts p hp
       rw [hm1 p.1, hnotdecl p hp] at hmt
       simp only [ocases_none] at hmt
-      exact ⟨mt, hmt, h0, h1, hlt, hv p hp mt hmt⟩
+      exact ⟨mt, hmt, h0, h1, hlt, hv p hp mt hmt h1⟩
     refine ⟨hok, ?_⟩
     · intro c
       rw [hget c, hm1 c]
@@ -442,5 +480,18 @@ theorem run_minv {σ : Type} (be : Backend σ) (ops : List Op) (nd nd' : Node σ
     · cases h
 
 theorem minv_init : MInv [] ([] : MetaMap) := ⟨trivial, fun _ => rfl⟩
+
+end Juno.C03
+
+namespace Juno.C03
+
+theorem OpsOK.mono {P Q : List Diff → Diff → Prop} (hPQ : ∀ ch d, P ch d → Q ch d) (ops : List Op) (ch : List Diff)
+    (h : OpsOK P ops ch) : OpsOK Q ops ch := by
+  induction ops generalizing ch with
+  | nil => trivial
+  | cons op rest ih =>
+    cases op with
+    | store id d => exact ⟨hPQ ch d h.1, ih _ h.2⟩
+    | revert => exact ih _ h
 
 end Juno.C03
